@@ -44,12 +44,6 @@ PROPS['C05'] = {
     'mismatch_counts': True,
     'assumptions': [MODEL_NOTE, 'secp256k1 recovery is an oracle: the theorem speaks about the addresses the real RecoverPlain returned'],
 }
-PROPS['C07'] = {
-    'level': 'proof',
-    'theorems': [],
-    'panics_count': True,
-    'campaigns': [camp('malformed', 16, 200), camp('mixed', 16, 200), camp('staking', 8, 100), camp('orders', 8, 100)],
-}
 
 PROPS['C09'] = {'level': 'proof', 'theorems': [], 'campaigns': [camp('mixed', 16, 200), camp('staking', 8, 100), camp('orders', 8, 100)]}
 PROPS['C13'] = {'level': 'proof', 'modules': ['MinterProofs.Props.C13'], 'theorems': ['Minter.buyForSell_K', 'Minter.sellForBuy_K', 'Minter.checkSwap_sound', 'Minter.burn_le_share', 'Minter.mint_then_burn_le', 'Minter.startingSupply_sq'], 'campaigns': [camp('orders', 16, 200)], 'modes': [{'mode': 'kernels', 'args': ['-seed', '{seed}', '-n', '{n:3000:60000}', '-driver', '{driver}', '-keep', '{keep}']}]}
@@ -377,6 +371,33 @@ PROPS['C19'] = {
                     'hypothesis PayOK.calc3: calcReward <= 3*safeReward (UpdatePriceFix returns reward <= safeReward, C28); at the excluded point the node\'s own invariant checker panics at Commit with exactly the amount the model calls lost',
                     'pot0 = reward + fees is an input of endBlockAccrue; that the fee pool holds exactly the commissions is C27'],
     'claim_draft': "Lean theorems about the reward model (MinterModel/Validators.lean: the first two loops of EndBlock, calculatePowers, PayRewardsV5Fix with both x3 branches verbatim), for all validator lists, stakes and integers: in the accrual a validator changes iff it is present and not dropped, and then only by floor(pot*stake/totalPower); the gains plus the remainder equal the pot, the remainder is >= 0; rewards of dropped validators return to the pot and they end with 0 (accrue_get, accrue_absent, accrue_conserves, accrue_remainder_nonneg, gainOf_bounds, returnDropped_get, returnDropped_conserves, endBlockAccrue_conserves, endBlockAccrue_remainder_nonneg); at a payout: paid + remainder + lost = accrued + moreRewards unconditionally (payout_balance, payoutAll_balance), DAO and developers get floor(10%) each, the validator exactly floor(commission% of the rest), each plain delegator floor(rest*bip/stake) (payout_shares, payout_plain, stakeStep_plain_pays, foldl_pays, payout_remainder), and under the stated hypotheses nothing is lost, no payment is negative, the remainder is >= 0 and the total paid never exceeds accrued + moreRewards, where moreRewards is exactly the increased reward of locked stakes (payout_remainder_nonneg, payout_main). Tie: mode valid compares accumulators, RewardEvents, slashed delta and the emission counter of the real EndBlock (accrual blocks, payout blocks, dropped validators, locked delegators, reward pairs up to 3x) with the Lean functions (Q accrue setaccrue payout payblock) and runs the two excluded points on the real node; node level: on every block of the staking and ledger campaigns endBlockAccrue on the live projection before EndBlock must give the accumulators and the slashed delta the node shows after, on payout blocks payoutAll must give the slashed delta and lose nothing (VIOL C19 wrong-accrual / accrued-while-not-present / accrual-remainder / payout-remainder / payout-loses-rewards / accum-not-reset-by-payout / model-predicts-negative-remainder-panic). Partial: the two hypotheses above are argued and monitored, not proved reachable-state invariants.",
+}
+
+
+# ---------------------------------------------------------------------------------------------------------------
+# C25 (concurrent queries) and C07 (no input crashes the node)
+PROPS['C25'] = {
+    'level': 'partial', 'registered': False,
+    'modules': ['MinterProofs.Props.C25'],
+    'theorems': ['Minter.C25_interleave_invariant', 'Minter.C25_same_modulo_queries'],
+    'race_build': True,   # core.build_all also builds bin/harness-race (go build -race) for this property only
+    'modes': [{'mode': 'concurrent', 'args': ['-profile', 'mixed', '-seed', '{seed}', '-n', '{n:3:12}', '-tier', '{tier}', '-keep', '{keep}', '-readers', '6', '-racebin', '/verif/bin/harness-race']}],
+    'assumptions': ['the op-level model cannot exhibit sub-operation interleavings of the Go runtime (unsynchronised map access, lock ordering, lazy cache fills from reader goroutines): those are explored by the concurrent mode (race-detector build), not proved',
+                    'a panic inside a read-only handler is recovered by the API server; the mode counts reader panics in its notes (reader_panics) and does not treat them as violations'],
+    'claim_draft': "Partial. Lean theorems (op level): for every state machine whose query operations are read-only (return the state they were given), inserting any number of queries anywhere into a history changes neither the final state nor any response of the non-query operations, and two histories that differ only in their queries end in the same state with the same responses (C25_interleave_invariant, C25_same_modulo_queries; for all machines, states and histories). This is interleaving at ABCI-operation granularity only. The Go-runtime part of the property is EXPLORATION, not proof: mode concurrent runs every generated history twice in child processes - query-free, and with 6 reader goroutines that hammer the read-only getters the API uses (balances, candidates, stakes, coins, pools, order books, route search, validators, frozen funds, waitlist, export through GetStateForHeight) on CurrentState() while blocks execute, in a race-detector build - and requires identical traces (every response, tag, state delta and app hash); the loaded process must neither die nor hang (10-minute limit per history; a hang is reported with the goroutine dump taken by SIGQUIT). Race reports are summarised in the notes by first node frame; recovered reader panics are counted (reader_panics), not violations.",
+}
+PROPS['C07'] = {
+    'level': 'partial', 'registered': False,
+    'modules': ['MinterProofs.Props.C07', 'MinterProofs.Props.C14', 'MinterProofs.Props.C15', 'MinterProofs.Props.C19', 'MinterProofs.Props.C23', 'MinterProofs.Props.C24'],
+    'theorems': ['Minter.C07_bfs_no_panic', 'Minter.C07_sfb_no_panic', 'Minter.C07_quote_no_panic',
+                 'Minter.Lob.ratInt_eq_ediv', 'Minter.Lob.partialSellAmount_eq', 'Minter.Lob.partialBuyAmounts_eq',
+                 'Minter.remove_liquidity_exec_ok', 'Minter.payout_remainder_nonneg',
+                 'Minter.Rlp.decode_fuel_irrelevant', 'Minter.Ev.C24_run_total'],
+    'panics_count': True,
+    'campaigns': [camp('malformed', 16, 200), camp('mixed', 16, 200), camp('staking', 8, 100), camp('orders', 8, 100), camp('begin', 8, 60)],
+    'assumptions': ['only the panic sites the Lean models represent are covered by theorems; nil dereferences / index errors in glue code, resource exhaustion and third-party library panics are only searched for',
+                    'payout_remainder_nonneg needs sum(bip) <= the validator\'s recorded stake (see C19); C24_run_total needs the events-store bound (see C24)'],
+    'claim_draft': "Partial. Lean theorems, one per panic site the models represent, each for all inputs of its domain: the swap check after a pool quote can never fail, so the panic(err) sites inside calculateBuyForSellWithOrders / calculateSellForBuyWithOrders are dead for pools without orders, also through the public quotes with the 0.1% burn (C07_bfs_no_panic, C07_sfb_no_panic, C07_quote_no_panic; positive reserves, non-negative amount); the big.Float detour of a limit-order partial fill is exact, so both 'negative amount' panics and all clamp branches are dead (Lob.ratInt_eq_ediv, Lob.partialSellAmount_eq, Lob.partialBuyAmounts_eq); the deliver-side panic site of RemoveLiquidity is unreachable after its validation (remove_liquidity_exec_ok); the 'Negative remainder' panic of the reward payout cannot fire while the stakes' bip values sum to at most the validator's recorded stake (payout_remainder_nonneg); RLP decoding is a total function whose fuel never causes a rejection (Rlp.decode_fuel_irrelevant); the events store never panics on bounded well-formed runs (Ev.C24_run_total). Everything else is SEARCH, not proof: every ABCI call of every campaign (malformed bytes, mixed, staking, orders, begin: evidence / absences / maturing funds) runs under recover(); any panic of InitChain, BeginBlock, CheckTx, DeliverTx, EndBlock or Commit is reported with the trace (PANIC ...). The panics found so far (F1, F2, F8, F9, F12, F13, F28, F29 ...) are repaired in /repo and recorded in known_findings.json.",
 }
 
 
